@@ -30,7 +30,7 @@ NAMES = ['seq_number', 'appname', 'user', 'Z', 'a', 'zz', '\u00e9', 'x y', 'q"',
          'messag', 'messagee', 'thread_id', '', 'k\n', '\uffff', '\ue000x', 'tim', 'typf', 'typd', '\u2028', 'a\\b', 'threadid']
 CATS = ['default', 'net', 'app.ui', '', 'qt.core', 'a b~{}']
 FILES = ['/a/b.cpp', 'main.cpp', '', '../x y/z.h', 'C:\\src\\a.cpp', '"q".cpp']
-FUNCS = ['void f(int)', 'int main(int, char**)', '', 'auto ns::C<T>::op()::<lambda()>', 'f']
+FUNCS = ['void f(int)', 'int main(int, char**)', '', 'auto ns::C<T>::op()::<lambda()>', 'f', 'T ns::operator/(T, T)', 'void C::f(const QString &) const']
 LINES = [0, 1, 42, 99999, 2147483647, -1]
 
 
@@ -48,9 +48,9 @@ def gen_case(rng, hist, stream):
         'flag': rng.randrange(2), 'type': rng.randrange(5),
         'msg': J.gen_units(rng, hist, 40, mal),
         'fmt': None if rng.random() < 0.5 else J.gen_units(rng, None, 10),
-        'cat': None if rng.random() < 0.03 else J.units(rng.choice(CATS)),
-        'file': None if nul or rng.random() < 0.05 else J.units(rng.choice(FILES)),
-        'fn': None if nul or rng.random() < 0.05 else J.units(rng.choice(FUNCS)),
+        'cat': None if rng.random() < 0.03 else J.units(J.gen_ascii(rng, hist, CATS, 'category')),
+        'file': None if nul or rng.random() < 0.05 else J.units(J.gen_ascii(rng, hist, FILES, 'file')),
+        'fn': None if nul or rng.random() < 0.05 else J.units(J.gen_ascii(rng, hist, FUNCS, 'function')),
         'line': rng.choice(LINES), 'attrs': attrs, 'stream': stream,
     }
     if mal and J.well_formed(case['msg']) and all(J.value_wf(v) for _, v in attrs):
@@ -234,6 +234,12 @@ def shrink_case(c, still_fails):
         t = dict(cur); t[field] = simple
         if still_fails(t):
             cur = t
+        elif cur[field]:
+            # the string itself is the trigger (a path shape, a special character): keep a minimal one
+            def f(items, field=field):
+                t = dict(cur); t[field] = list(items)
+                return bool(items) and still_fails(t)
+            cur[field] = vlib.shrink_list(cur[field], f, 80)
     for field, simple in (('line', 1), ('type', 0)):
         t = dict(cur); t[field] = simple
         if still_fails(t):
@@ -263,8 +269,8 @@ def run():
                    'Python json module as independent parser of the implementation output',
                    'modelled, not verified: QJsonDocument::toJson, QJsonValue::fromVariant, QJsonObject key order, QVariantHash']
     chk.assumptions = ['strings are sequences of 16-bit units (theorems) / well-formed UTF-16 (oracle streams); lone surrogates are only diffed',
-                       'numeric attribute values are integers of magnitude <= 2^53 (qlonglong, int, or a double holding an integer)',
-                       'category/file/function are ASCII C strings or null pointers',
+                       'numeric attribute values are integers of magnitude <= 2^53 held by an int, uint, qlonglong, qulonglong, double or float (float: <= 2^24) inside the range of the type; the type is part of the model input (JsonDefs.num_value); long / short / char QVariants are not generated (QJsonValue::fromVariant of Qt 5.15 renders them as strings)',
+                       'category/file/function are printable-ASCII C strings (plain names, path-like families with //, ./, dir/../, trailing /, backslashes, spaces, a lone separator, random printable ASCII) or null pointers',
                        'time string and thread id are read from the message and passed to the model as given fields',
                        'custom attribute names that equal a built-in name are outside the recoverability claim (still diffed)',
                        'one JsonFormatter object per mode serves the whole harness run; a record may not depend on earlier messages']
@@ -367,7 +373,7 @@ def run():
         'evaluations': len(cases), 'corpus_cases': ncorpus,
         'distinct_nontrivial': len({line_of(c) for c in cases if nontrivial(c)}),
         'rule': 'generated messages (escape classes of the writer, astral pairs, U+2028/9, key-order boundary names, nested list/map values, '
-                'null pointers, both modes); non-trivial = has attributes or a message character that is escaped / non-ASCII',
+                'null pointers, path-like category/file/function strings, all six numeric QVariant types at their boundaries, both modes); non-trivial = has attributes or a message character that is escaped / non-ASCII',
         'streams': {s: sum(1 for c in cases if c['stream'] == s) for s in ('wf', 'shadow', 'malformed')},
         'byte_exact_disagreements_model_vs_impl': len(diffs),
         'records_compared': sum(len(r['recs']) for r in res), 'multi_step_cases': sum(1 for c in cases if c.get('steps')),
@@ -379,6 +385,8 @@ def run():
                           'category': sum(c['cat'] is None for c in cases)},
         'attribute_count_histogram': {str(k): sum(1 for c in cases if len(c['attrs']) == k) for k in range(0, 7)},
         'duplicate_attribute_names': sum(1 for c in cases if len({tuple(k) for k, _ in c['attrs']}) < len(c['attrs'])),
+        'path_like_strings': {f: sum(1 for c in cases if c[f] and J.path_shapes(J.pystr(c[f]))) for f in ('cat', 'file', 'fn')},
+        'numeric_type_histogram': {J.NUM_TYPES[t][0]: hist.get('num_' + J.NUM_TYPES[t][0], 0) for t in J.NUM_TOKENS},
         'generator_histogram': dict(sorted(hist.items())),
     })
     for i in (0, len(cases) // 3, len(cases) - 1):
